@@ -454,6 +454,41 @@ def _enclosing_test(fnode, target):
 
 
 # ----------------------------------------------------------------------------------------------
+def preprocessing_timeout_rows(rep, ex: Explorer):
+    """TIMEOUT.row on Inference.inference: once preprocessing ran out of time no operator is asked; every query gets a
+    row under its own key with answer False (the table flags it through preprocessing_timed_out)."""
+    qual = f"{INF}.inference"
+    site = fn_label(ex.prog, qual)
+
+    def setup(I):
+        s, es, bb = _self(I, extra={"preprocessing_timed_out": Const(True), "preprocessing_done": Const(False)})
+        return [s, _queries(I), Sym("timeout", "int"), Sym("multi", "bool")], {}
+
+    summ = dict(SUMMARIES)
+    summ[f"{INF}.single_inference"] = lambda I, fi, a, k, n: (I.log("delegated", n, func="single"), Sym("rows"))[1]
+    summ[f"{INF}.multi_inference"] = lambda I, fi, a, k, n: (I.log("delegated", n, func="multi"), Sym("rows"))[1]
+    paths = ex.run(qual, setup, summaries=summ, key="inference-preproc-timeout")
+    n = 0
+    for p in paths:
+        if p.outcome[0] != "return":
+            rep.violation("TIMEOUT.row", site, "after a preprocessing timeout", "the expiry is reported through the rows, not by an exception", extracted=repr(p.outcome[1])[:80], required="rows", function=site)
+            continue
+        n += 1
+        dl = [ev for ev, Q in iter_events(p.events) if ev.kind == "delegated"]
+        rep.check(not dl, "TIMEOUT.row", site, "no operator after a preprocessing timeout", "without finished preprocessing no query is handed to the operator", extracted=f"{len(dl)} delegation(s)", required="0", function=site)
+        rv = p.outcome[1]
+        d = p.state.heap.get(rv.oid) if isinstance(rv, Ref) else None
+        ok = isinstance(d, HDict) and not d.entries and len(d.each) == 1
+        got = repr(rv)[:80]
+        if ok:
+            _, b, fam, g, kt, vt = d.each[0]
+            ok = fam == ("members", ("keys", "Q")) and g == PTRUE and isinstance(kt, ElemV) and kt.var == b and kt.role == "key" and isinstance(vt, TupleV) and len(vt.items) == 4 \
+                and isinstance(vt.items[0], ElemV) and vt.items[0].var == b and vt.items[1] == Const(False)
+            got = f"{kt!r}: {vt!r}"
+        rep.check(ok, "TIMEOUT.row", site, "rows after a preprocessing timeout", "every query gets a row under its own key with answer False", extracted=got[:160], required="{key: (key, False, ..)}", function=site)
+    rep.floor("inference() paths after a preprocessing timeout", n, 1)
+
+
 def rows(rep, ex: Explorer, which=("single", "worker", "multi", "manager"), rules=None):
     rep.only = set(rules) if rules else None
     try:
@@ -823,7 +858,17 @@ def state_lifetime(rep, ex: Explorer):
 
         pre_st, inf_ld, init_st, inf_st = stores(pre), loads(inf), stores(init), stores(inf)
         label = f"{ci.module.replace('.', '/')}.py:{cls.rsplit('.', 1)[1]}"
-        bad = [a for a in inf_ld if a in pre_st and a not in init_st and a not in inf_st and a != "epistemic_state"]
+        def from_state(a):
+            """__init__ (run for every new operator object) rebuilds the attribute from the persistent state."""
+            if a not in init_st:
+                return False
+            fi, nd = init_st[a]
+            for st in ast.walk(fi.node):
+                if isinstance(st, (ast.Assign, ast.AnnAssign)) and any(t is nd for t in (st.targets if isinstance(st, ast.Assign) else [st.target])):
+                    return st.value is not None and any(isinstance(x, (ast.Attribute, ast.Name)) and getattr(x, "attr", getattr(x, "id", "")) == "epistemic_state" for x in ast.walk(st.value))
+            return False
+
+        bad = [a for a in inf_ld if a in pre_st and not from_state(a) and a not in inf_st and a != "epistemic_state"]
         n += 1
         for a in bad:
             fi, nd = inf_ld[a]
@@ -832,6 +877,39 @@ def state_lifetime(rep, ex: Explorer):
         if not bad:
             rep.ok("STATE.lifetime", label, "attributes", "nothing that preprocessing leaves on the operator object is read while answering queries", extracted=f"preprocessing writes {sorted(pre_st)}, inference reads {sorted(a for a in inf_ld if a != 'epistemic_state')}")
     rep.floor("operator classes audited for state lifetime", n, 7)
+
+
+def solver_per_query(rep, site, paths):
+    """STATE.solver-per-query: a solver / optimizer / WCNF object built while a query is answered is not kept on the
+    operator object or in the epistemic state: an exceptional exit (expired budget, `unknown`) between push and pop would
+    leave its assertions behind for the next query."""
+    n = 0
+    for p in paths:
+        holders = {}
+        for oid, o in p.state.heap.items():
+            if isinstance(o, HObj) and "epistemic_state" in o.attrs:
+                holders[oid] = "the operator object"
+            if hasattr(o, "entries") and "belief_base" in getattr(o, "entries", {}) and "smt_solver" in o.entries:
+                holders[oid] = "the epistemic state"
+        for ev, Q in iter_events(p.events):
+            if ev.kind not in ("attr.set", "dict.set"):
+                continue
+            tgt = ev.data.get("obj")
+            val = ev.data.get("value")
+            if not (isinstance(tgt, Ref) and tgt.oid in holders):
+                continue
+            n += 1
+            solverish = False
+            if isinstance(val, Ref):
+                o = p.state.heap.get(val.oid)
+                solverish = type(o).__name__ in ("HSolver", "HWcnf")
+            elif isinstance(val, ElemV) and val.role == "optimizer":
+                solverish = True
+            if solverish:
+                name = ev.data.get("attr", ev.data.get("key"))
+                rep.violation("STATE.solver-per-query", f"{site}:{ev.node.lineno}", f"stored solver {name!r}", "constraint objects are created per query; none is kept beyond the query on the operator or in the state",
+                              extracted=f"{type(p.state.heap.get(val.oid)).__name__ if isinstance(val, Ref) else 'optimizer'} stored in {holders[tgt.oid]}", required="a fresh object per query", function=site)
+    rep.ok("STATE.solver-per-query", site, "stores audited", f"no solver object is stored on the operator or in the state ({n} stores inspected)")
 
 
 MUTATING = ("dict.set", "list.append", "list.extend", "list.insert", "list.pop", "list.remove", "list.clear", "list.sort", "list.setitem",
